@@ -33,10 +33,15 @@ where
     A: Clone + Send + Sync,
 {
     let neighbors_map = get_neighbors_of_nodes(node_names, graph);
+    // the neighbors of a requested node need not be requested themselves: their own neighbors
+    // are looked up in a map that covers the whole graph
+    let all_neighbors_map = match node_names.is_none() || node_names.unwrap().is_empty() {
+        true => neighbors_map.clone(),
+        false => get_neighbors_of_nodes(None, graph),
+    };
     neighbors_map
-        .clone()
         .into_iter()
-        .map(|(v, v_nbrs)| get_triangles_and_degrees_for_node(v, v_nbrs, &neighbors_map))
+        .map(|(v, v_nbrs)| get_triangles_and_degrees_for_node(v, v_nbrs, &all_neighbors_map))
         .collect()
 }
 
